@@ -13,14 +13,16 @@ from .hmodel import Model, ModelError
 HPROFILES = {
     # weights of op kinds after the initial construction phase
     'C15': {'requires': 5, 'requires_remove': 2, 'cycles': 6, 'job': 2,
-            'chain': 0.12, 'remove': 2, 'sched': 2, 'add': 1, 'sanitize': 1, 'back_edge': 4},
+            'chain': 0.12, 'remove': 2, 'sched': 2, 'add': 1, 'sanitize': 1, 'back_edge': 4,
+            'prerun': 0.4},
     'C16': {'requires': 4, 'dangling': 5, 'sanitize': 5, 'job': 2, 'sched': 2,
-            'add': 1, 'remove': 1, 'seq': 1},
+            'add': 1, 'remove': 1, 'seq': 1, 'prerun': 0.6},
     'C17': {'requires': 4, 'requires_remove': 2, 'query': 8, 'job': 2,
             'sched': 2, 'add': 1, 'remove': 2, 'bypass': 1, 'seq': 1,
-            'keep_only': 1, 'dangling': 2},
+            'keep_only': 1, 'dangling': 2, 'chain': 0.12, 'prerun': 0.4},
     'C18': {'requires': 3, 'requires_remove': 2, 'bypass': 5, 'keep_only': 3,
-            'keep_between': 4, 'job': 2, 'seq': 1, 'query': 2, 'sched': 1},
+            'keep_between': 4, 'job': 2, 'seq': 1, 'query': 2, 'sched': 1,
+            'chain': 0.1, 'prerun': 0.4},
     # histories that end with run(): queries, edits and surgery first
     'C01': {'requires': 4, 'requires_remove': 1, 'query': 4, 'job': 3,
             'sched': 1, 'add': 2, 'update': 1, 'remove': 3, 'bypass': 3,
@@ -111,6 +113,8 @@ class HGen:
                                 and self.m.kind[i["name"]] == 'seq'
                                 for i in items):
                         kind = "list"
+                if depth == 0 and rng.random() < 0.08:
+                    kind = "iter"       # a generator: can be walked only once
                 return {"t": kind, "items": items}
             cut = rng.randrange(1, len(items))
             return {"t": rng.choice(("list", "tuple")),
@@ -126,6 +130,8 @@ class HGen:
             self.rng.random() < 0.2 else None
         op = {"op": "job", "name": name, "forever": forever,
               "required": req, "scheduler": scheduler}
+        if self.rng.random() < 0.1:
+            op["falsy"] = True                  # bool(job) is False
         prev = getattr(self, '_last_set_required', None)
         if prev is not None and self.rng.random() < 0.3 and not required:
             # a second job built from the very same set object
@@ -161,7 +167,8 @@ class HGen:
                 required = self.arg_of([rng.choice(mem)])
         self.emit({"op": "sched", "name": name, "pure": pure, "items": its,
                    "forever": forever, "required": required,
-                   "scheduler": scheduler})
+                   "scheduler": scheduler,
+                   "odd_len": rng.random() < 0.15})
         self.m.new_sched(name, pure, its, forever, required, scheduler)
         for i in self.m.members[name]:
             self.owner[i] = name
@@ -386,7 +393,8 @@ class HGen:
         if update:
             if rng.random() < 0.3:
                 items.append(self.none())
-            self.emit({"op": "update", "sched": sched, "items": items})
+            self.emit({"op": "update", "sched": sched, "items": items,
+                       "as_iter": rng.random() < 0.25})
         else:
             items = items[:1]
             names = names[:1]
@@ -450,8 +458,12 @@ class HGen:
             starts = self.rng.sample(mem, min(k, len(mem)))
         self.emit({"op": "query", "sched": sched, "starts": starts})
 
+    def op_prerun(self):
+        self.emit({"op": "prerun", "sched": self.top})
+
     def op_cycles(self):
-        self.emit({"op": "cycles", "sched": self.pick_sched()})
+        self.emit({"op": "cycles", "sched": self.pick_sched(),
+                   "query_inside": self.rng.random() < 0.3})
 
     def op_bypass(self):
         sched = self.pick_sched()
@@ -539,6 +551,7 @@ class HGen:
             'bypass': self.op_bypass, 'keep_only': self.op_keep_only,
             'chain': self.op_chain,
             'keep_between': self.op_keep_between,
+            'prerun': self.op_prerun,
         }
         for _ in range(rng.choice((4, 6, 8, 10, 14, 20))):
             table[rng.choices(kinds, weights)[0]]()
